@@ -5,8 +5,8 @@ Import ListNotations.
 Open Scope string_scope.
 Open Scope list_scope.
 
-(** [inv seed st]: every cache key is the name of the item stored under it and keys are pairwise distinct; the seed is
-    a node; every dependency of a node (call, import, interface block, planned addition, minus planned removals) is a
+(** [inv seed st]: every cache key is the name of the item stored under it and keys are pairwise distinct; the seeds
+    are nodes; every dependency of a node (call, import, interface block, planned addition, minus planned removals) is a
     node; every edge joins two nodes and is a dependency of its source; every node is reachable from the seed. *)
 
 Theorem C25_init_inv :
@@ -18,20 +18,21 @@ Print Assumptions C25_init_inv.
     transformations re-establishes the invariant; only the uniqueness of the cache keys is needed of the state before *)
 Theorem C25_step_inv :
   forall disk seed st o st',
-    kok (st_cache st) -> step disk seed st o = Some st' -> inv seed st' /\ kok (st_cache st').
+    kok (st_cache st) -> step disk seed st o = Some st' -> inv (next_seeds o st seed) st' /\ kok (st_cache st').
 Proof. exact step_inv. Qed.
 Print Assumptions C25_step_inv.
 
 (** hence for every operation history, of any length, from any generated project *)
 Theorem C25_history_inv :
   forall disk seed ops st0 sts,
-    init disk seed = Some st0 -> run disk seed st0 ops = Some sts -> Forall (inv seed) (st0 :: sts).
+    init disk seed = Some st0 -> run disk seed st0 ops = Some sts ->
+    Forall2 inv (seed :: run_seeds disk seed st0 ops) (st0 :: sts).
 Proof. exact history_inv_from_init. Qed.
 Print Assumptions C25_history_inv.
 
 Theorem C25_fold_history_inv :
-  forall disk seed ops st0 st,
-    init disk seed = Some st0 -> fold_left (step_opt disk seed) ops (Some st0) = Some st -> inv seed st.
+  forall disk seed ops st0 seed' st,
+    init disk seed = Some st0 -> fold_left (step_opt disk) ops (Some (seed, st0)) = Some (seed', st) -> inv seed' st.
 Proof. exact fold_history_inv. Qed.
 Print Assumptions C25_fold_history_inv.
 
@@ -54,10 +55,10 @@ Print Assumptions C25_rekey_needed.
 Theorem C25_rebuild_spec :
   forall seed st st',
     rebuild seed st = Some st' ->
-    In seed (st_nodes st') /\
+    incl seed (st_nodes st') /\
     (forall x d, In x (st_nodes st') -> In d (deps_of st' x) -> In d (st_nodes st')) /\
     (forall x y, In (x, y) (st_edges st') -> In x (st_nodes st') /\ In y (st_nodes st') /\ In y (deps_of st' x)) /\
-    (forall x, In x (st_nodes st') -> reach st' seed x).
+    (forall x, In x (st_nodes st') -> exists s, In s seed /\ reach st' s x).
 Proof. exact rebuild_spec. Qed.
 Print Assumptions C25_rebuild_spec.
 
@@ -65,7 +66,8 @@ Print Assumptions C25_rebuild_spec.
 Theorem C25_later_processing_visits_survivors :
   forall seed st, inv seed st ->
     forall x, In x (visits st) <->
-              exists s r, x = (s ++ "#" ++ r)%string /\ In (NProc s r) (st_nodes st) /\ reach st seed (NProc s r).
+              exists s r, x = (s ++ "#" ++ r)%string /\ In (NProc s r) (st_nodes st) /\
+                          exists s0, In s0 seed /\ reach st s0 (NProc s r).
 Proof. exact later_processing_visits_survivors. Qed.
 Print Assumptions C25_later_processing_visits_survivors.
 
@@ -74,7 +76,7 @@ Print Assumptions C25_later_processing_visits_survivors.
 Theorem C25_later_processing_stable :
   forall disk seed st o st',
     step disk seed st o = Some st' ->
-    exists st'', reprocess disk seed st' = Some st'' /\ st_nodes st'' = st_nodes st' /\
+    exists st'', reprocess disk (next_seeds o st seed) st' = Some st'' /\ st_nodes st'' = st_nodes st' /\
                  st_edges st'' = st_edges st' /\ st_cache st'' = st_cache st' /\ st_srcs st'' = st_srcs st'.
 Proof. exact later_processing_stable. Qed.
 Print Assumptions C25_later_processing_stable.
@@ -103,6 +105,19 @@ Theorem C25_wrap_without_interface_outside_class :
   exists st0, init ex_disk3 ex_seed = Some st0 /\ step ex_disk3 ex_seed st0 (OWrap "_mod") = None.
 Proof. exact wrap_without_interface_outside_class. Qed.
 Print Assumptions C25_wrap_without_interface_outside_class.
+
+(** several seeds, two of them kernel entry points: Scheduler.seeds is renamed element-wise and the renamed entry points
+    are nodes of the graph *)
+Theorem C25_multi_seed_history :
+  exists st0 sts,
+    init ex_disk ex_seeds2 = Some st0 /\ run ex_disk ex_seeds2 st0 [OWrap "_mod"; ODep "_test" "_mod"] = Some sts /\
+    forallb consistent_b (st0 :: sts) = true /\
+    seeds_after ex_disk ex_seeds2 st0 [OWrap "_mod"; ODep "_test" "_mod"] =
+      [NProc "" "driver"; NProc "m_test_mod" "kc_test"; NProc "kf_test_mod" "kf_test"] /\
+    forallb (fun n => mem_n n (st_nodes (last sts st0)))
+            [NProc "" "driver"; NProc "m_test_mod" "kc_test"; NProc "kf_test_mod" "kf_test"] = true.
+Proof. exact multi_seed_history. Qed.
+Print Assumptions C25_multi_seed_history.
 
 (** a non-trivial history (duplicate with subgraph, module wrap, suffixing, removal) inside the class *)
 Theorem C25_example_history :
